@@ -205,6 +205,7 @@ pub async fn scenario(line: &str) -> String {
     "churn" => churn(&p).await,
     "fanin" => fanin(&p).await,
     "peerclose" => peerclose(&p).await,
+    "chanleak" => chanleak(&p).await,
     "rchurn" => rchurn(&p).await,
     "cancel" => cancel_scn(&p).await,
     "secure" => secure(&p).await,
@@ -2523,6 +2524,88 @@ async fn rchurn(p: &[&str]) -> String {
   "rchurn=ok".into()
 }
 
+/// `chanleak <capacity> <timed-out sends> <timeout ms>` - the bounded async mpsc channel rzmq uses for its pipes (crate
+/// `fibre`), on its own: fill it, let `n` sends time out on the full channel (tokio::time::timeout drops the send future),
+/// drain it completely; a send must then succeed at once.
+async fn chanleak(p: &[&str]) -> String {
+  let cap: usize = p[1].parse().unwrap();
+  let n: usize = p[2].parse().unwrap();
+  let ms: u64 = p[3].parse().unwrap();
+  let (tx, rx) = fibre::mpsc::bounded_async::<u32>(cap);
+  let mut sent = 0u32;
+  while tx.try_send(sent).is_ok() {
+    sent += 1;
+  }
+  let mut timed_out = 0;
+  let mode = p.get(4).copied().unwrap_or("sync");
+  let mut drained = 0;
+  if mode == "sync" {
+    for i in 0..n {
+      if tokio::time::timeout(Duration::from_millis(ms), tx.send(1000 + i as u32)).await.is_err() {
+        timed_out += 1;
+      }
+    }
+    while rx.try_recv().is_ok() {
+      drained += 1;
+    }
+  } else {
+    // a consumer that takes one item now and then (async recv / batch recv) while sends keep timing out
+    let slow = std::sync::Arc::new(std::sync::atomic::AtomicBool::new(true));
+    let slow2 = slow.clone();
+    let batch = mode == "batch";
+    let consumer = tokio::spawn(async move {
+      let mut got = 0usize;
+      loop {
+        if slow2.load(std::sync::atomic::Ordering::Relaxed) {
+          tokio::time::sleep(Duration::from_millis(ms * 3)).await;
+        }
+        if batch {
+          match tokio::time::timeout(Duration::from_millis(300), rx.recv()).await {
+            Ok(Ok(_)) => {
+              got += 1;
+              got += rx.try_recv_batch(64).map(|v| v.len()).unwrap_or(0);
+            }
+            _ => break,
+          }
+        } else {
+          match tokio::time::timeout(Duration::from_millis(300), rx.recv()).await {
+            Ok(Ok(_)) => got += 1,
+            _ => break,
+          }
+        }
+      }
+      (got, rx)
+    });
+    for i in 0..n {
+      if tokio::time::timeout(Duration::from_millis(ms), tx.send(1000 + i as u32)).await.is_err() {
+        timed_out += 1;
+      }
+    }
+    slow.store(false, std::sync::atomic::Ordering::Relaxed);
+    let (got, rx2) = consumer.await.unwrap();
+    drained = got;
+    let r = tokio::time::timeout(Duration::from_secs(2), tx.send(9999)).await;
+    drop(rx2);
+    return match r {
+      Ok(Ok(())) => format!("chanleak=ok filled={} timed_out={} drained={}", sent, timed_out, drained),
+      Ok(Err(_)) => "chanleak=closed".into(),
+      Err(_) => format!(
+        "ORACLE-FAIL key=chanleak after {} timed-out sends on a full channel of capacity {} and a complete drain ({} items), a send still waits (2 s)",
+        timed_out, cap, drained
+      ),
+    };
+  }
+  let r = tokio::time::timeout(Duration::from_secs(2), tx.send(9999)).await;
+  match r {
+    Ok(Ok(())) => format!("chanleak=ok filled={} timed_out={} drained={}", sent, timed_out, drained),
+    Ok(Err(_)) => "chanleak=closed".into(),
+    Err(_) => format!(
+      "ORACLE-FAIL key=chanleak after {} timed-out sends on a full channel of capacity {} and a complete drain ({} items), a send still waits (2 s)",
+      timed_out, cap, drained
+    ),
+  }
+}
+
 /// `peerclose <options of the socket that closes> <options of the other socket>`
 /// A PUSH connects to a PULL, both see the handshake, then the PUSH is closed (LINGER 0, nothing queued). The PULL side must
 /// learn that its peer is gone (its monitor reports the disconnect) within 3 s - whatever backend either side runs on.
@@ -3227,8 +3310,10 @@ async fn cancel_scn(p: &[&str]) -> String {
   let _ = set_i32(&snd, o::SNDTIMEO, geti("sndtimeo", 150)).await;
   let _ = set_i32(&rcv, o::RCVTIMEO, 300).await;
   if transport == "tcp" {
-    let _ = set_i32(&snd, o::SNDBUF, 4096).await;
-    let _ = set_i32(&rcv, o::RCVBUF, 4096).await;
+    // small enough for back-pressure to set in after a few dozen messages, large enough for TCP not to fall into long
+    // zero-window probe intervals while the receiver stalls (with 4 KiB the flow took seconds to restart after a stall)
+    let _ = set_i32(&snd, o::SNDBUF, 32768).await;
+    let _ = set_i32(&rcv, o::RCVBUF, 32768).await;
   }
   if rty == "SUB" {
     let _ = rcv.set_option_raw(o::SUBSCRIBE, b"").await;
@@ -3493,9 +3578,9 @@ async fn cancel_scn(p: &[&str]) -> String {
       }
     }
   }
-  // drain: until nothing has arrived for a while
+  // drain: until nothing has arrived for a while (2 s: a TCP flow that was stalled for long restarts at the kernel's pace)
   let mut idle = 0;
-  while idle < 3 {
+  while idle < 7 {
     if take(&rcv, false, &mut got, &mut partial).await {
       idle = 0;
     } else {
@@ -3507,13 +3592,18 @@ async fn cancel_scn(p: &[&str]) -> String {
   let _ = set_i32(&snd, o::SNDTIMEO, 3000).await;
   for attempt in 0..3usize {
     let probe = probe - attempt; // a probe that was given up may still arrive: each attempt has its own number
+    let probe_t0 = Instant::now();
     match tokio::time::timeout(Duration::from_secs(5), snd.send_multipart(mk(probe, false))).await {
       Ok(Ok(())) => {
         fate.push((probe, Fate::Accepted));
         break;
       }
       Ok(Err(e)) => {
-        problems.push(format!("key=cancel-unusable the send after the script is refused: {}", err_class(&e)));
+        problems.push(format!(
+          "key=cancel-unusable the send after the script is refused: {} (after {} ms; the receiver had drained everything and SNDTIMEO is 3000 ms)",
+          err_class(&e),
+          probe_t0.elapsed().as_millis()
+        ));
         break;
       }
       Err(_) => {
@@ -3600,6 +3690,10 @@ async fn cancel_scn(p: &[&str]) -> String {
     "cancel=ok".into()
   } else {
     problems.truncate(4);
+    if std::env::var("VERIF_CANCEL_STATS").is_ok() {
+      let c = |w: Fate| fate.iter().filter(|(_, f)| *f == w).count();
+      problems.push(format!("[accepted={} refused={} dropped={} arrived={}]", c(Fate::Accepted), c(Fate::Refused), c(Fate::Dropped), seen.len()));
+    }
     format!("ORACLE-FAIL {}", problems.join("; "))
   }
 }
